@@ -127,6 +127,15 @@ def directed_instances(rng, tier, units):
             out.append({"kind": "F", "r1": ["f64", "f32", "i32", "f64"][j % 4], "r2": ["f64", "f32", "f64", "f32"][j % 4], "u1": u, "u2": v, "why": "library units, float"})
         if j < 4:
             out.append({"kind": "Q", "r1": "i32", "r2": ["i32", "i64"][j % 2], "u1": u, "u2": v, "why": "library units"})
+    # narrowing explicit conversions whose source and destination differ in signedness (the intermediate rep must be the
+    # SIGNED common type when the destination is signed, whatever the widths): permanent list, each with a unit change that
+    # divides (finer -> coarser), one with a general rational ratio, and one that only multiplies
+    cK = U(1, 100, 0, 1, 100)
+    narrowing = [("u64", "i32"), ("u64", "i16"), ("u64", "i8"), ("u32", "i16"), ("u32", "i8"), ("u16", "i8"),
+                 ("i64", "u32"), ("i64", "u16"), ("i64", "u8"), ("i32", "u16"), ("i32", "u8"), ("i16", "u8")]
+    for (r, n) in narrowing:
+        for (u, v) in ((cK, C), (cK, F), (C, cK), (LIB_UNITS["mK"], LIB_UNITS["cC"])):
+            out.append({"kind": "E", "r1": r, "r2": n, "u1": u, "u2": v, "why": "narrowing, sign-changing reps"})
     # identity, point-equivalent twin, negative origin
     for (u, v) in ((C, C), (C, c_alt), (c_alt, C), (neg, K), (K, neg), (neg, F)):
         out.append({"kind": "E", "r1": "i32", "r2": "i32", "u1": u, "u2": v, "why": "identity/twin/negative origin"})
@@ -156,13 +165,17 @@ def directed_instances(rng, tier, units):
 
 
 def gen_instances(rng, tier):
-    nE, nO = (60, 36) if tier == "quick" else (360, 200)
+    nE, nO = (64, 36) if tier == "quick" else (384, 200)
     units = gen_units(rng, 10 if tier == "quick" else 30)
     lib = list(LIB_UNITS.values())
     out = []
+    # every ordered (source rep, destination rep) pair of the 8 integral reps, in an order drawn from the seed: with nE >= 64
+    # each pair is judged in every run (widening, narrowing, sign-changing and mixed ones alike)
+    all_pairs = [(a, b) for a in INT_TYPES for b in INT_TYPES]
+    rng.shuffle(all_pairs)
     for k in range(nE):
-        r, n = REPS_E[k % len(REPS_E)]
-        if k < 3 * len(REPS_E):
+        r, n = all_pairs[k % len(all_pairs)]
+        if k < len(all_pairs):
             u, v = rng.sample(lib, 2)
         else:
             u, v = rng.choice(units), rng.choice(units)
@@ -856,6 +869,15 @@ def e_values(rng, ins, plan, count):
         z = B0 // kA        # value at the target origin
         for dl in range(-3, 4):
             pts.add(z + dl)
+        # both sides of the target origin with SMALL true results (they fit even an 8-bit destination): one result step is
+        # about D / (N * kA) source steps
+        step = max(1, -(-D // max(1, N * kA)))
+        for j in (1, 2, 3, 10, 50, 100, 120):
+            pts.add(z + j * step)
+            pts.add(z - j * step)
+            pts.add(z + j * step + 1)
+            pts.add(z - j * step - 1)
+    pts |= {2, 5, 15, 100, 1000, -5, -15, -100}
     for _ in range(count):
         zz = rng.random()
         if zz < 0.5:
